@@ -294,6 +294,14 @@ func (e *C12) Run(c *core.Ctx, idx int) {
 			{"DecodeTiff", func() (exif2.Exif, error) { return imagemeta.DecodeTiff(mon.NewRS(stream)) }},
 			{"DecodeHeif", func() (exif2.Exif, error) { return imagemeta.DecodeHeif(mon.NewRS(stream)) }},
 			{"exif2.Parse", func() (exif2.Exif, error) { return exif2.Parse(mon.NewRS(stream)) }},
+			{"exif2.Parse/positioned", func() (exif2.Exif, error) {
+				// the stream starts where the reader stands (the rest of a larger object)
+				k := 1 + fillN%97
+				junk := make([]byte, k)
+				rs := mon.NewRS(append(junk, stream...))
+				rs.Pos = int64(k)
+				return exif2.Parse(rs)
+			}},
 		} {
 			var ex exif2.Exif
 			var err error
